@@ -178,6 +178,22 @@ impl<WpParam, T: Clone> BakedParameters<WpParam, T> {
         self.inner.verif_fields()
     }
 
+    /// The forward cone response compression (`Adapt::run`) of these
+    /// parameters, applied to one component.
+    #[doc(hidden)]
+    pub fn verif_adapt<V>(&self, component: V) -> V
+    where
+        V: crate::num::Real
+            + crate::num::FromScalar<Scalar = T>
+            + crate::num::Abs
+            + crate::num::Signum
+            + crate::num::Powf
+            + crate::num::Arithmetics
+            + Clone,
+    {
+        self.inner.verif_adapt(component)
+    }
+
     /// Baked parameters with explicitly given dependent quantities.
     #[doc(hidden)]
     pub fn verif_from_dependent(fields: [T; 17]) -> Self {
